@@ -126,7 +126,7 @@ fn type_unloadable_in_binary(t: &DataType) -> bool {
 
 fn lit_for(v: &V) -> Option<String> {
     match v {
-        V::Integer(i) | V::Bigint(i) if i.abs() < (1 << 31) => Some(if *i < 0 { format!("(0{})", i) } else { i.to_string() }),
+        V::Integer(i) | V::Bigint(i) if i.unsigned_abs() < (1 << 31) => Some(if *i < 0 { format!("(0{})", i) } else { i.to_string() }),
         V::Smallint(i) => Some(if *i < 0 { format!("(0{})", i) } else { i.to_string() }),
         V::Varchar(s) if !s.chars().any(|c| c.is_control() || c == '\\') => Some(format!("'{}'", s.replace('\'', "''"))),
         _ => None,
@@ -240,11 +240,15 @@ fn compare_dbs(orig: &mut Db, loaded: &mut Db, fmt: Fmt, rep: &mut Report) -> Ve
         rep.count("queries_full_scan");
         match (a.rows(), b.rows()) {
             (Some(x), Some(y)) if bag(x) == bag(y) => {}
+            _ if a.is_panic() && b.is_panic() => rep.count("query_panics_in_both_databases(not C18)"),
             _ => d.push(Diff { what: "full-scan query differs".into(), detail: format!("{}\n{}\n{}", q, a.brief(), b.brief()), sig: None }),
         }
     }
     for ix in &i1 {
         let meta = orig.db.get_index(ix).unwrap().clone();
+        if meta.columns.iter().any(|c| c.prefix_length.is_some()) {
+            continue; // the definition difference is already reported (prefix length is not stored)
+        }
         let t = meta.table_name.clone();
         let Some(tab) = orig.db.get_table(&t) else { continue };
         let c = meta.columns[0].column_name.clone();
@@ -268,8 +272,11 @@ fn compare_dbs(orig: &mut Db, loaded: &mut Db, fmt: Fmt, rep: &mut Report) -> Ve
                         bag(x) == bag(y)
                     }
                 }
-                _ => a.is_err() && b.is_err(),
+                _ => (a.is_err() && b.is_err()) || (a.is_panic() && b.is_panic()),
             };
+            if a.is_panic() {
+                rep.count("query_panics_in_both_databases(not C18)");
+            }
             if b.rows().map(|r| !r.is_empty()).unwrap_or(false) {
                 rep.count("queries_index_driven_nonempty");
             }
@@ -293,6 +300,7 @@ fn roundtrip(g: &mut GenDb, id: &str, args: &Args, rep: &mut Report) {
     let mut nrows = 0usize;
     let mut special = false;
     let mut unloadable = false;
+    let mut nonfinite_in_not_null = false;
     for t in &g.tables {
         if let Some(tab) = g.db.db.get_table(t) {
             for c in &tab.schema.columns {
@@ -300,6 +308,11 @@ fn roundtrip(g: &mut GenDb, id: &str, args: &Args, rep: &mut Report) {
                 unloadable |= type_unloadable_in_binary(&c.data_type);
             }
             nrows += tab.row_count();
+            for (ci, c) in tab.schema.columns.iter().enumerate() {
+                if !c.nullable && tab.scan().iter().any(|r| is_nonfinite(&r.values[ci])) {
+                    nonfinite_in_not_null = true;
+                }
+            }
             special |= tab.scan().iter().any(|r| r.values.iter().any(|v| is_nonfinite(v) || matches!(v, V::Varchar(s) | V::Character(s) if !s.is_ascii() || s.contains('\''))));
         }
     }
@@ -322,7 +335,13 @@ fn roundtrip(g: &mut GenDb, id: &str, args: &Args, rep: &mut Report) {
         let loaded = match fmt.load(&path) {
             Ok(d) => d,
             Err(e) => {
-                let sig = if fmt != Fmt::Json && unloadable && e.contains("Unsupported data type") { Some(SIG_BIN_TYPE_UNLOADABLE) } else { None };
+                let sig = if fmt != Fmt::Json && unloadable && e.contains("Unsupported data type") {
+                    Some(SIG_BIN_TYPE_UNLOADABLE)
+                } else if fmt == Fmt::Json && nonfinite_in_not_null && e.contains("NullConstraintViolation") {
+                    Some(SIG_JSON_NONFINITE) // the NULL that replaced NaN/Inf lands in a NOT NULL column
+                } else {
+                    None
+                };
                 rep.fail(FailKind::Oracle, sig, &format!("load_{} of a file written by save_{} failed", fmt.name(), fmt.name()), &replay(&e));
                 continue;
             }
@@ -356,7 +375,7 @@ fn probe_db(ddl: &[&str], rows: &[(&str, Vec<V>)]) -> GenDb {
 fn main() {
     let args = Args::parse("C18");
     let mut rep = Report::new(&args, "codec case: non-NULL value; round-trip case: database with rows and (an index or a special value: non-finite float, non-ASCII or quote-containing string)");
-    engine::silence_panics();
+    if std::env::var("VERIF_SHOW_PANICS").is_err() { engine::silence_panics(); }
     let mut m = args.model();
     let mut rng = Rng::new(args.seed);
 
@@ -495,7 +514,7 @@ fn main() {
             ],
         );
     }
-    insert_row(&mut g, "P", vec![V::Integer(100), V::Null, V::Null, V::Null, V::Null, V::Null, V::Integer(7).clone().max(V::Null), V::Null, V::Null, V::Null, V::Null, V::Null, V::Null]);
+    insert_row(&mut g, "P", vec![V::Integer(100), V::Null, V::Null, V::Null, V::Null, V::Null, V::Bigint(7), V::Null, V::Null, V::Null, V::Null, V::Null, V::Null]);
     g.db.exec("DELETE FROM P WHERE ID = 3");
     g.script.push("DELETE FROM P WHERE ID = 3;".into());
     roundtrip(&mut g, "probe-specials", &args, &mut rep);
@@ -518,6 +537,9 @@ fn main() {
     // B4 prefix index
     let mut g = probe_db(&["CREATE TABLE PX (A INTEGER, S VARCHAR(20))", "CREATE INDEX PXI ON PX (S(2))"], &[("PX", vec![V::Integer(1), V::Varchar("abcdef".into())]), ("PX", vec![V::Integer(2), V::Varchar("abzzzz".into())])]);
     roundtrip(&mut g, "probe-prefix-index", &args, &mut rep);
+    // B4b multi-byte CHAR(n) values (padded on insert; re-inserted by the loaders)
+    let mut g = probe_db(&["CREATE TABLE CH (A INTEGER, C CHAR(6))"], &[("CH", vec![V::Integer(1), V::Character("é".into())]), ("CH", vec![V::Integer(2), V::Character("漢字漢字漢字".into())]), ("CH", vec![V::Integer(3), V::Character("ab".into())])]);
+    roundtrip(&mut g, "probe-char-multibyte", &args, &mut rep);
     // B5 index over many rows after deletes (index rebuilt from the loaded rows)
     let mut g = probe_db(&["CREATE TABLE BIG (ID INTEGER PRIMARY KEY, V INTEGER, S VARCHAR(10))", "CREATE INDEX BIGV ON BIG (V)", "CREATE INDEX BIGS ON BIG (S, V DESC)"], &[]);
     for i in 0..150i64 {
